@@ -42,13 +42,13 @@ mutual
           find?_of_handle (by simp [HTree.handle, e])]
         rfl
       · simp only [mapAt, e, if_false, find?]
-        exact findList?_mapAtList_self p g hg ks
-  theorem findList?_mapAtList_self (p : Nat) (g : HTree → HTree) (hg : ∀ t, (g t).handle = t.handle) :
+        exact ff_findList?_mapAtList_self p g hg ks
+  theorem ff_findList?_mapAtList_self (p : Nat) (g : HTree → HTree) (hg : ∀ t, (g t).handle = t.handle) :
       ∀ ks : List HTree, findList? p (mapAtList p g ks) = (findList? p ks).map g
     | [] => rfl
     | k :: ks => by
       simp only [mapAtList, findList?]
-      rw [ffx_find?_mapAt_self p g hg k, findList?_mapAtList_self p g hg ks]
+      rw [ffx_find?_mapAt_self p g hg k, ff_findList?_mapAtList_self p g hg ks]
       cases find? p k <;> rfl
 end
 
